@@ -110,7 +110,7 @@ PROPS = {
     ),
     "C06": dict(
         design_ref="DESIGN.md 5.6",
-        level_text="Coq theorems over the printer regenerated from ast.go and the writer, lexer and parser models. For all trees: the semicolon option is read only by the statement-terminator operation (output without semicolons = output with them of the same operations minus the terminators); indentation options made of blanks change only leading whitespace of lines (through cleanEmptyLines). ROUND TRIP (C06_pretty_round_trip, PrettyProofs.v): for every program of the grammar lexed from a source text and every pretty configuration that writes semicolons (any blank indent unit, with or without source map) the formatted output lexes and parses back, without error, to the tree it was printed from - the same tree as the compact output (C01_compact_round_trip) - provided no line of a multi-line literal ends with a blank (KF3). With semicolons off the clause is false (KF1, KF2: reported by the oracle). IDEMPOTENCE (C06_idempotent, TriviaProofs.v): under the same hypotheses, formatting the formatted output reproduces it byte for byte (a first attempt found the defect x;//<TAB>, repaired by fix 8063bcf).",
+        level_text="Coq theorems over the printer regenerated from ast.go and the writer, lexer and parser models. For all trees: the semicolon option is read only by the statement-terminator operation (output without semicolons = output with them of the same operations minus the terminators); indentation options made of blanks change only leading whitespace of lines (through cleanEmptyLines). ROUND TRIP (C06_pretty_round_trip, PrettyProofs.v): for every program of the grammar lexed from a source text and every pretty configuration that writes semicolons (any blank indent unit, with or without source map) the formatted output lexes and parses back, without error, to the tree it was printed from - the same tree as the compact output (C01_compact_round_trip) - provided no line of a multi-line literal ends with a blank (KF3). With semicolons off the clause is false (KF1, KF2: reported by the oracle). IDEMPOTENCE (C06_idempotent, TriviaProofs.v): under the same hypotheses, formatting the formatted output reproduces it byte for byte (a first attempt found the defect x;//<TAB>, repaired by fix 8063bcf). REFUTED CLAUSES as theorems with kernel-evaluated witnesses (RefutedPretty.v): with semicolons off the round trip is false (C06_round_trip_without_semicolons_refuted: a;(b), C06_else_without_semicolons_refuted: if(a)b;else c) and the hypothesis literals_trim_safe is necessary (C06_trim_inside_literal_refuted).",
         level_note="Trusted: Coq kernel, translator xjs2v (WriteTo bodies), extraction, harness/driver correspondence (print suite over all option combinations). Modelled not verified: CodeWriter and cleanEmptyLines (strings.TrimSpace modelled on ASCII white space: exact on every reachable output since the lexer drops trailing Unicode white space of comments); the lexer, parser models for the round trip (differentially tested).",
         technique="Coq proof (simulation of two writer runs; structural invariant of the generated printer) + model/implementation correspondence",
         suites=[dict(suite="writer", n_quick=3000, n_thorough=100000, what="random histories of the exported CodeWriter methods: buffer, indent level, mappings", projection=WRITER_NOMAP),
@@ -123,7 +123,7 @@ PROPS = {
     ),
     "C16": dict(
         design_ref="DESIGN.md 5.16",
-        level_text="Coq theorems over the executable parser model. For all inputs (valid or malformed), modes, interceptors and operators: every statement and expression parse step leaves the context stack exactly as it found it, and after ParseProgram the stack is [Global]. NESTING (C16_reflects_nesting, NestProofs.v), for every program of the grammar and any lists of pass-through, probe and re-entrant interceptors: at EVERY interceptor invocation the answers equal the syntactic nesting that NestSpec.v assigns to the current token - IsInFunction = the token is inside a function body (declaration or expression, at any depth), CurrentContext = Global outside every brace block and Block inside one; tokens of a lexed source are pairwise distinct, so the nesting of a token is unique. The property's wording expects Function for a token directly inside a function body; the code answers Block there: recorded finding KF8, reported by the oracle (probes asking everywhere or selectively against the reference unparser's nesting record).",
+        level_text="Coq theorems over the executable parser model. For all inputs (valid or malformed), modes, interceptors and operators: every statement and expression parse step leaves the context stack exactly as it found it, and after ParseProgram the stack is [Global]. NESTING (C16_reflects_nesting, NestProofs.v), for every program of the grammar and any lists of pass-through, probe and re-entrant interceptors: at EVERY interceptor invocation the answers equal the syntactic nesting that NestSpec.v assigns to the current token - IsInFunction = the token is inside a function body (declaration or expression, at any depth), CurrentContext = Global outside every brace block and Block inside one; tokens of a lexed source are pairwise distinct, so the nesting of a token is unique. The property's wording expects Function for a token directly inside a function body; the code answers Block there: recorded finding KF8, reported by the oracle (probes asking everywhere or selectively against the reference unparser's nesting record). REFUTED CLAUSE as a theorem with a kernel-evaluated witness: at `let` in function f(){let x=1} IsInFunction = true and CurrentContext = Block, not Function (C16_function_body_is_block_refuted, KF8).",
         level_note="Trusted: Coq kernel, translator xjs2v (context constants, tables), extraction, harness/driver correspondence (icept suite compares the probes' CurrentContext/IsInFunction log and the final context). Modelled not verified: parser control flow incl. the deferred pops.",
         technique="Coq proof (balance invariant by induction on fuel) + model/implementation correspondence",
         suites=[dict(suite="icept", n_quick=3000, n_thorough=100000, what="sources x interceptor lists: tree, errors, final context, probe log (token, CurrentContext, IsInFunction)",
@@ -161,7 +161,7 @@ PROPS = {
     ),
     "C03": dict(
         design_ref="DESIGN.md 4 (C03)",
-        level_text="Coq theorems over the printer regenerated from ast.go, the writer, lexer and parser models and the grammar specification: the printer's precedence of every node kind is its ECMAScript level (member 12 vs LeftHandSide 11 is never separated by a printer test); for EVERY assembled expression tree with arbitrary operands (callee/object positions call-level-or-tighter, simple assignment targets) the parentheses the printer writes make it a tree of the grammar; it is the same tree up to grouping nodes, prints to the same compact text, and parenthesisation is idempotent; and TEXT LEVEL: printing such a tree compactly (parentheses, fusion-avoiding blanks, re-quoted strings), lexing the text and parsing the tokens yields without error the parenthesised tree - the same tree up to grouping nodes, positions and comments - for all trees whose stored literals are lexer-producible (C03_print_parse_compact), and the same through EVERY pretty configuration (any blank indent, semicolons on or off, map on or off: C03_print_parse_pretty; comment-free tokens, no line of a multi-line literal ending in a blank). Statement-level assembled trees are explored by the oracle with every parent/child operator pair to depth 3 (KF4 dangling else on assembled trees is reported there).",
+        level_text="Coq theorems over the printer regenerated from ast.go, the writer, lexer and parser models and the grammar specification: the printer's precedence of every node kind is its ECMAScript level (member 12 vs LeftHandSide 11 is never separated by a printer test); for EVERY assembled expression tree with arbitrary operands (callee/object positions call-level-or-tighter, simple assignment targets) the parentheses the printer writes make it a tree of the grammar; it is the same tree up to grouping nodes, prints to the same compact text, and parenthesisation is idempotent; and TEXT LEVEL: printing such a tree compactly (parentheses, fusion-avoiding blanks, re-quoted strings), lexing the text and parsing the tokens yields without error the parenthesised tree - the same tree up to grouping nodes, positions and comments - for all trees whose stored literals are lexer-producible (C03_print_parse_compact), and the same through EVERY pretty configuration (any blank indent, semicolons on or off, map on or off: C03_print_parse_pretty; comment-free tokens, no line of a multi-line literal ending in a blank). Statement-level assembled trees are explored by the oracle with every parent/child operator pair to depth 3 (KF4 dangling else on assembled trees is reported there). REFUTED CLAUSE as a theorem with a kernel-evaluated witness: the assembled if with an else-less if as then-branch re-parses with the else on the inner if (C03_assembled_dangling_else_refuted, KF4).",
         level_note="Trusted: Coq kernel, translator xjs2v (WriteTo bodies, both precedence tables), extraction, harness/driver correspondence (print suite with assembled trees), Grammar.v. Modelled not verified: CodeWriter. Recorded findings on assembled trees: KF4 (dangling else); semicolons-off hazards KF1/KF2; KF3.",
         technique="Coq proof (tree induction against the grammar's level discipline) + model/implementation correspondence",
         suites=[dict(suite="print", n_quick=2000, n_thorough=50000, what="parser-produced and assembled trees x configurations: code, panic",
@@ -174,7 +174,7 @@ PROPS = {
     ),
     "C15": dict(
         design_ref="DESIGN.md 4 (C15)",
-        level_text="Coq theorems over the printer regenerated from ast.go and the writer, lexer and parser models: compact output (code and source map) is independent of all comments; erasing the trivia of a tree changes exactly the WriteLeadingComments arguments and nothing else in the operation list; a trivia list is written verbatim, once, at the current indentation, leaving a pending line break + indentation; comment text never influences what else is written. POSITION (C15_comments_stay_in_place, TriviaProofs.v): for every program of the grammar lexed from a source text and every pretty configuration that writes semicolons, lexing and parsing the formatted output gives a tree whose trivia lists at ALL statement boundaries - in front of every statement of every statement list at any depth, in front of every closing brace of a block, in front of the end of input - are those of the source item by item (comment texts verbatim, blank lines, in order), up to CommentSpec.norm_boundaries (a statement that shared a line with its predecessor starts a line of its own; blank lines at the very start and end of the input are trimmed): every comment is still in front of the same statement / brace / end, exactly once, in source order, blank-line separation kept. A comment without text is stored like a blank line by the lexer (KF5, reported by the oracle).",
+        level_text="Coq theorems over the printer regenerated from ast.go and the writer, lexer and parser models: compact output (code and source map) is independent of all comments; erasing the trivia of a tree changes exactly the WriteLeadingComments arguments and nothing else in the operation list; a trivia list is written verbatim, once, at the current indentation, leaving a pending line break + indentation; comment text never influences what else is written. POSITION (C15_comments_stay_in_place, TriviaProofs.v): for every program of the grammar lexed from a source text and every pretty configuration that writes semicolons, lexing and parsing the formatted output gives a tree whose trivia lists at ALL statement boundaries - in front of every statement of every statement list at any depth, in front of every closing brace of a block, in front of the end of input - are those of the source item by item (comment texts verbatim, blank lines, in order), up to CommentSpec.norm_boundaries (a statement that shared a line with its predecessor starts a line of its own; blank lines at the very start and end of the input are trimmed): every comment is still in front of the same statement / brace / end, exactly once, in source order, blank-line separation kept. A comment without text is stored like a blank line by the lexer (KF5, reported by the oracle). REFUTED CLAUSE as a theorem with a kernel-evaluated witness: a comment without text is dropped (C15_comment_without_text_refuted, KF5).",
         level_note="Trusted: Coq kernel, translator xjs2v (WriteTo bodies), extraction, harness/driver correspondence (lex suite for trivia collection, print and writer suites for replay). Recorded finding KF5 (a comment without text is stored like a blank line).",
         technique="Coq proof (tree induction over the generated printer; writer characterisation) + model/implementation correspondence",
         suites=[dict(suite="writer", n_quick=3000, n_thorough=100000, what="CodeWriter histories incl. WriteLeadingComments", projection=WRITER_NOMAP),
@@ -216,7 +216,7 @@ PROPS = {
     ),
     "C05": dict(
         design_ref="DESIGN.md 4 (C05)",
-        level_text="Coq theorems: token-type ids are stable per name, injective and >= 1000 > every built-in type, for every registration history; a registration for a token that already has the role (built-in or registered) is refused leaving the builder unchanged; the role sets are exactly the built-in handlers plus what was registered (seeds regenerated from NewBuilder and checked against the handler tables of newWithOptions); a fresh registration changes only its role; an infix operator registered at the level of a built-in binary operator b parses EXACTLY like b (simulation: parse with the operator = parse of the renamed tokens, up to renaming, errors included), for the 12 built-in binary operators without a prefix role and every configuration that does not touch b; a registered prefix operator parses exactly like '!'; a registered postfix operator is a CALL-level suffix. EVERY LEVEL (ClimbSpec.v, ClimbProofs.v): for every configuration a builder can produce (no operator on the end-of-input token), both modes, any interceptors, and every operator tree over identifiers and integer literals that mixes the 13 built-in binary operators with infix operators registered at ANY levels above LOWEST and is grouped like left-associative operators of those levels (left operand of level >= k, right operand of level > k), the parser returns exactly that tree and reports no error; the well-grouped tree of a token list is unique; the same (ClimbSpec2.v) for trees that also contain prefix operators (built-in ! and -, registered: level 9), registered postfix operators (call-level suffix, level 11) and parenthesised subtrees; and (ClimbSpec3.v, C05_groups_by_level_y) for trees that also contain the built-in neighbours that are not binary operators: member access (12), index access (12), calls with any number of arguments (11), built-in ++ / -- (10, not after a line break), assignment and compound assignment (2, right-associative), in both modes (smart mode: no line break before an opening ( or [).",
+        level_text="Coq theorems: token-type ids are stable per name, injective and >= 1000 > every built-in type, for every registration history; a registration for a token that already has the role (built-in or registered) is refused leaving the builder unchanged; the role sets are exactly the built-in handlers plus what was registered (seeds regenerated from NewBuilder and checked against the handler tables of newWithOptions); a fresh registration changes only its role; an infix operator registered at the level of a built-in binary operator b parses EXACTLY like b (simulation: parse with the operator = parse of the renamed tokens, up to renaming, errors included), for the 12 built-in binary operators without a prefix role and every configuration that does not touch b; a registered prefix operator parses exactly like '!'; a registered postfix operator is a CALL-level suffix. EVERY LEVEL (ClimbSpec.v, ClimbProofs.v): for every configuration a builder can produce (no operator on the end-of-input token), both modes, any interceptors, and every operator tree over identifiers and integer literals that mixes the 13 built-in binary operators with infix operators registered at ANY levels above LOWEST and is grouped like left-associative operators of those levels (left operand of level >= k, right operand of level > k), the parser returns exactly that tree and reports no error; the well-grouped tree of a token list is unique; the same (ClimbSpec2.v) for trees that also contain prefix operators (built-in ! and -, registered: level 9), registered postfix operators (call-level suffix, level 11) and parenthesised subtrees; and (ClimbSpec3.v, C05_groups_by_level_y) for trees that also contain the built-in neighbours that are not binary operators: member access (12), index access (12), calls with any number of arguments (11), built-in ++ / -- (10, not after a line break), assignment and compound assignment (2, right-associative), in both modes (smart mode: no line break before an opening ( or [). REFUTED CLAUSE as a theorem with a kernel-evaluated witness: an infix operator registered at level 1 never binds (C05_level_one_never_binds_refuted, KF18).",
         level_note="Trusted: Coq kernel, translator xjs2v (tables, builder seeds), extraction, harness/driver correspondence (reg suite: registered operators on dynamic tokens incl. refused duplicates). Operator callbacks are the node-constructor shapes the property names. Recorded finding KF18 (level 1 never binds).",
         technique="Coq proof (simulation between two parser runs by induction on fuel; completeness of the Pratt loop for operator trees of arbitrary levels by induction on the tree; registry invariants over histories) + model/implementation correspondence",
         suites=[dict(suite="reg", n_quick=3000, n_thorough=100000, what="expressions over registered operators: tree, errors, registration error flags",
@@ -228,7 +228,7 @@ PROPS = {
     ),
     "C12": dict(
         design_ref="DESIGN.md 4 (C12)",
-        level_text="Coq theorems over the executable parser model: SOUNDNESS - whatever strict mode accepts without reporting an error (from any source text, or any token list without an interior end-of-input token) is a program of the relaxed grammar GrammarLax.v = the ECMAScript grammar of the subset (Grammar.v, validated against node 20) plus five explicit relaxations, each a recorded finding (KF6 assignment targets, KF7 member names, object keys, KF12 declarations as single statements, KF11 postfix expressions as callees; function parameters are identifiers since the repair of KF15); the relaxed grammar contains the strict one; CAUSALITY - if a token list agrees with an accepted one on its first k tokens, every error reported for it is located no earlier than token k-1 (any mode / interceptors / operators). With C10 (unterminated literals are ILLEGAL tokens) a corrupted text outside the relaxed grammar is never accepted silently. The oracle compares with node 20 over every single-token deletion, separator removal and truncation of generated programs and reports the recorded findings.",
+        level_text="Coq theorems over the executable parser model: SOUNDNESS - whatever strict mode accepts without reporting an error (from any source text, or any token list without an interior end-of-input token) is a program of the relaxed grammar GrammarLax.v = the ECMAScript grammar of the subset (Grammar.v, validated against node 20) plus five explicit relaxations, each a recorded finding (KF6 assignment targets, KF7 member names, object keys, KF12 declarations as single statements, KF11 postfix expressions as callees; function parameters are identifiers since the repair of KF15); the relaxed grammar contains the strict one; CAUSALITY - if a token list agrees with an accepted one on its first k tokens, every error reported for it is located no earlier than token k-1 (any mode / interceptors / operators). With C10 (unterminated literals are ILLEGAL tokens) a corrupted text outside the relaxed grammar is never accepted silently. The oracle compares with node 20 over every single-token deletion, separator removal and truncation of generated programs and reports the recorded findings. REFUTED CLAUSES as theorems with kernel-evaluated witnesses (RefutedStrict.v): w.r.t. Grammar.v itself soundness is false - a+b=c, 1++ (KF6), a.'x' (KF7), a++(b) (KF11), if(a)let x=1 (KF12) are accepted without error although no tree of the grammar has these token lists (by C02_parse_complete).",
         level_note="Trusted: Coq kernel, translator xjs2v, extraction, harness/driver correspondence (parse suite with token-level mutations). node 20 only in the search oracle. 'Valid JavaScript' in theorems means Grammar.v / GrammarLax.v, not an external parser.",
         technique="Coq proof (lockstep simulation of two parser runs with different fuels) + model/implementation correspondence; reference-engine oracle as search",
         suites=[dict(suite="parse", n_quick=3000, n_thorough=100000, what="sources incl. token-level mutations x 4 modes: tree, errors with ranges, flag"),
